@@ -143,6 +143,12 @@ Fixpoint char_lcp (a b : str) : str :=
   | _, _ => []
   end.
 
+(** [str.casefold] / [str.lower] on one code point, ASCII part: 'A'..'Z' -> 'a'..'z', everything else unchanged.
+    This is exact for ASCII strings and wherever Unicode case folding is the identity (all inputs of the
+    correspondences); multi-character foldings (sharp s -> ss) are NOT modelled.  No theorem accepts a guard that
+    contains it; it exists so that a guard comparing case-folded strings has a meaning the refutation can compute with. *)
+Definition fold_char (c : N) : N := if (N.leb 65 c && N.leb c 90)%bool then c + 32 else c.
+
 (** ---------------------------------------------------------------- the guard language *)
 Inductive sx : Type :=
 | SAbs                                  (* abs_path *)
@@ -153,7 +159,20 @@ Inductive sx : Type :=
 | SJoin (a b : sx)                      (* os.path.join(a, b) *)
 | SCommon (a b : sx)                    (* os.path.commonpath([a, b]) *)
 | SIfEndsSep (c a b : sx)               (* a if c.endswith(os.sep) else b *)
-| SCommonPrefix (a b : sx).             (* os.path.commonprefix([a, b]): CHARACTER-wise; never accepted as a guard *)
+| SCommonPrefix (a b : sx)              (* os.path.commonprefix([a, b]): CHARACTER-wise; never accepted as a guard *)
+(* round 5 (seeded c18_8): the string transformations of the name-normalising helpers of filesys.py
+   ([_norm_name], [_folder_prefix]); a guard that compares TRANSFORMED strings is translated faithfully and never
+   accepted by [raise_sound] (what is compared is no longer the path handed to the OS) *)
+| SFold (a : sx)                        (* a.casefold() / a.lower(): ASCII letters folded, see [fold_char] *)
+| SUnbs (a : sx)                        (* a.replace('\\', '/') *)
+| SNorm (a : sx)                        (* os.path.normpath(a) *)
+| SIfEq (c d a b : sx)                  (* a if c == d else b *)
+| SIfEmpty (c a b : sx)                 (* a if not c else b   (c the empty string) *)
+(* a transformation the language has NO meaning for (x.strip(), unicodedata.normalize('NFKC', x), os.path.realpath(x) ...):
+   recorded with its name so that the guard can be written down and rejected BY NAME ([raise_sound] refuses every guard
+   that contains one, wherever it stands); [seval] gives it the identity as a placeholder, which no theorem about an
+   accepted guard ever evaluates *)
+| SOpaque (name : str) (a : sx).
 
 Inductive gx : Type :=
 | GConstrain                            (* self.constrain_path *)
@@ -178,6 +197,12 @@ Fixpoint seval (e : env) (x : sx) : str :=
   | SCommon a b => commonpath2 (seval e a) (seval e b)
   | SIfEndsSep c a b => if ends_sep (seval e c) then seval e a else seval e b
   | SCommonPrefix a b => char_lcp (seval e a) (seval e b)
+  | SFold a => map fold_char (seval e a)
+  | SUnbs a => map (fun c => if N.eqb c bslash then sep else c) (seval e a)
+  | SNorm a => normpath (seval e a)
+  | SIfEq c d a b => if str_eqb (seval e c) (seval e d) then seval e a else seval e b
+  | SIfEmpty c a b => match seval e c with [] => seval e a | _ => seval e b end
+  | SOpaque _ a => seval e a
   end.
 
 Fixpoint geval (e : env) (g : gx) : bool :=
@@ -214,21 +239,28 @@ Definition abs_like (x : sx) : bool :=
   | SCat a s => is_SAbs a && is_sep_lit s
   | _ => false
   end.
-(** expressions whose segments are those of the root: [self.path], [self.path.rstrip(os.sep)] *)
-Definition root_like (x : sx) : bool :=
+Definition is_dot_lit (x : sx) : bool := match x with SLit s => str_eqb s [dotc] | _ => false end.
+(** expressions whose segments are those of the root: [self.path], [R.rstrip(os.sep)], and (round 5)
+    ['' if R == '.' else R'] — the first step of filesys._folder_prefix: '.' and '' have the same (no) segments *)
+Fixpoint root_like (x : sx) : bool :=
   match x with
   | SRoot => true
-  | SRStrip a => is_SRoot a
+  | SRStrip a => root_like a
+  | SIfEq c d a b => root_like c && is_dot_lit d && is_empty_lit a && root_like b
   | _ => false
   end.
 (** expressions that end with a separator and whose segments are those of the root:
-    [R + os.sep], [os.path.join(self.path, '')], [self.path if self.path.endswith(os.sep) else self.path + os.sep] *)
+    [R + os.sep], [os.path.join(self.path, '')], [self.path if self.path.endswith(os.sep) else self.path + os.sep];
+    or (round 5) that are EMPTY exactly when the root has no segments and else of that kind:
+    ['' if not G else R + os.sep] — filesys._folder_prefix on the un-folded root (the root '/' gives the empty prefix) *)
 Definition root_sep_like (y : sx) : bool :=
   match y with
   | SCat r s => root_like r && is_sep_lit s
   | SJoin r e => is_SRoot r && is_empty_lit e
   | SIfEndsSep c a b =>
       is_SRoot c && is_SRoot a && match b with SCat r s => is_SRoot r && is_sep_lit s | _ => false end
+  | SIfEmpty g a b =>
+      root_like g && is_empty_lit a && match b with SCat r s => root_like r && is_sep_lit s | _ => false end
   | _ => false
   end.
 Definition is_common_abs_root (x : sx) : bool :=
@@ -256,8 +288,26 @@ Fixpoint ok_when (pol : bool) (g : gx) : bool :=
   | GOr g h => if pol then ok_when true g && ok_when true h else ok_when false g || ok_when false h
   end.
 
-(** The raise condition is sound when "not raised" implies containment. *)
-Definition raise_sound (raise_if : gx) : bool := ok_when false raise_if.
+(** no uninterpreted transformation anywhere in the guard *)
+Fixpoint sx_plain (x : sx) : bool :=
+  match x with
+  | SAbs | SRoot | SLit _ => true
+  | SCat a b | SJoin a b | SCommon a b | SCommonPrefix a b => sx_plain a && sx_plain b
+  | SRStrip a | SFold a | SUnbs a | SNorm a => sx_plain a
+  | SIfEndsSep c a b | SIfEmpty c a b => sx_plain c && sx_plain a && sx_plain b
+  | SIfEq c d a b => sx_plain c && sx_plain d && sx_plain a && sx_plain b
+  | SOpaque _ _ => false
+  end.
+Fixpoint gx_plain (g : gx) : bool :=
+  match g with
+  | GConstrain | GTrue | GFalse => true
+  | GEq a b | GStarts a b | GEnds a b => sx_plain a && sx_plain b
+  | GNot g => gx_plain g
+  | GAnd g h | GOr g h => gx_plain g && gx_plain h
+  end.
+
+(** The raise condition is sound when "not raised" implies containment (and every string in it has a meaning). *)
+Definition raise_sound (raise_if : gx) : bool := gx_plain raise_if && ok_when false raise_if.
 
 (** Containment: the root's segments are a prefix of the path's segments, and the path has no '..' left. *)
 Definition seg_prefix (r a : list str) : Prop := exists rest, a = r ++ rest.
